@@ -121,6 +121,9 @@ func (a cpuA) Trace(w io.Writer) {
 // TraceNoBuffer asks for the trace line without offering a buffer and returns the slice the
 // library hands back (the caller may keep it).
 func (a cpuA) TraceNoBuffer() []byte { return a.c.DisassembleCurrentPC(nil) }
+
+// TraceAppend appends the trace line to what the caller has accumulated so far.
+func (a cpuA) TraceAppend(acc []byte) []byte { return a.c.DisassembleCurrentPC(acc) }
 func (a cpuA) Regs() Regs {
 	c := a.c
 	return Regs{PC: c.PC, SP: c.SP, RA: c.RA, RX: c.RX, RY: c.RY, RD: c.RD, RAh: c.RAh, RAl: c.RAl, RXl: c.RXl, RYl: c.RYl,
